@@ -92,6 +92,8 @@ def gen_cb(rng, d, stack_async, kind=None, weights=(6, 2, 2)):
     k = kind or rng.choice(B.KINDS if stack_async else B.SYNC_KINDS)
     is_a = k in B.KINDS[5:]
     c = {"k": k, "x": False, "m": None}
+    if k in ("pushfn", "pushafn") and rng.random() < 0.6:
+        c["lk"] = rng.choice(B.LOOKS[1:])
     if k in B.MGR_KINDS:
         c["m"] = gen_mgr(rng, d, is_a, weights)
     elif k in B.METH_KINDS:
@@ -210,6 +212,14 @@ def specials():
     exs = gcm(False, _frm([_wth(gcm(False))], ["deleg", _frm([_wth(_plain(False))])]))
     out.append({"root": _frm([_wth(_plain(False))], ["exit", _wth(exs)]), "mode": "run", "rk": "gen"})
     out.append({"root": _frm([_wth(_plain(True))], ["exit", _wth(copy.deepcopy(exs))]), "mode": "run", "rk": "coro"})
+    # user functions that look like contextlib's _exit_wrapper closure, registered with push / push_async_exit
+    looks = [{"k": "pushfn", "x": False, "m": None, "lk": lk} for lk in B.LOOKS]
+    out.append({"root": _frm([_wth({"t": "stack", "a": False, "f": False, "cbs": copy.deepcopy(looks) + [{"k": "callback", "x": False, "m": None}]})]),
+                "mode": "susp", "rk": "gen"})
+    alooks = [{"k": "pushafn", "x": False, "m": None, "lk": lk} for lk in B.LOOKS]
+    out.append({"root": _frm([_wth({"t": "stack", "a": True, "f": False,
+                                    "cbs": looks + alooks + [{"k": "acallback", "x": False, "m": None}, {"k": "callback", "x": False, "m": None}]})]),
+                "mode": "susp", "rk": "coro"})
     # exit stacks observed in the middle of their own exit; earlier registrations still pending
     def pending(a):
         leaf = lambda: gcm(False)
@@ -274,6 +284,18 @@ def hist_cases(rng, n):
                 {"k": "enter", "x": False, "m": gcm(False)}, {"k": "pushmeth", "x": False, "m": _plain(False)}]}}]})]))},
         {"k": "enter", "x": False, "m": gcm(False)}]}
     yield {"root": _frm([_wth(deep)]), "mode": "susp", "rk": "coro", "plan": "hist", "_kind": "hist"}
+    # frames with several with-blocks where an EARLIER one fails to unfold during the fault: the later ones must be whole
+    failing = lambda: {"t": "stack", "a": False, "f": False, "cbs": [{"k": "callback", "x": False, "m": None},
+                                                                      {"k": rng.choice(["enter", "pushmeth"]), "x": False, "m": _plain(False)}]}
+    whole = [lambda: gcm(False, _frm([_wth(gcm(False))])),
+             lambda: {"t": "stack", "a": False, "f": False, "cbs": [{"k": "enter", "x": False, "m": gcm(False)}, {"k": "pushfn", "x": False, "m": None}]},
+             lambda: gcm(False, _frm([_wth(failing()), _wth(gcm(False)), _wth({"t": "stack", "a": False, "f": False, "cbs": [{"k": "callback", "x": False, "m": None}]})]))]
+    for k in range(12):
+        ws = [_wth(failing())] + [_wth(rng.choice(whole)(), n=rng.random() < 0.7) for _ in range(rng.choice([1, 2, 3]))]
+        if k % 3 == 0:
+            ws.insert(0, _wth(whole[k % len(whole)]()))
+        mode, rk = [("susp", "gen"), ("susp", "coro"), ("run", "gen"), ("run", "coro")][k % 4]
+        yield {"root": _frm(ws), "mode": mode, "rk": rk, "plan": "hist", "_kind": "hist"}
     got = 0
     while got < n:
         if rng.random() < 0.5:
@@ -345,6 +367,7 @@ def run_case(desc):
     if desc.get("plan") == "hist":
         obs["outs"] = env.observations
         obs["fault_reported"] = getattr(env, "fault_error", None)
+        obs["faulted"] = env.faulted_abstracted
     return obs
 
 
@@ -375,35 +398,43 @@ def c_av(av):
                                    av["rel"])
 
 
-def c_mgr(m):
-    if m is None or m["t"] == "plain":
+def c_mgr(m, flt=False):
+    """flt: print the plain managers as MFaulty (their __repr__ raised during that extraction)"""
+    if m is None:
         return "MPlain"
+    if m["t"] == "plain":
+        return "MFaulty" if flt else "MPlain"
     if m["t"] == "gen":
-        return "(MGen %s)" % c_frm(m["body"])
-    return "(MStack %s)" % clist([c_cb(c) for c in m["cbs"]])
+        return "(MGen %s)" % c_frm(m["body"], flt)
+    return "(MStack %s)" % clist([c_cb(c, flt) for c in m["cbs"]])
 
 
-def c_cb(c):
+def c_kind(c):
+    k = B.COQ_KIND[c["k"]]
+    return k % c.get("lk", "LPlain") if "%s" in k else k
+
+
+def c_cb(c, flt=False):
     m = c.get("m")
-    return "(Cb %s %s %s %s %s %s %s)" % (B.COQ_KIND[c["k"]], cbool(bool(m and m.get("f"))), cbool(c.get("x", False)),
-                                          c_av(c["_av"]), cnat(c["_oself"]), cnat(c["_ocb"]), c_mgr(m))
+    return "(Cb %s %s %s %s %s %s %s)" % (c_kind(c), cbool(bool(m and m.get("f"))), cbool(c.get("x", False)),
+                                          c_av(c["_av"]), cnat(c["_oself"]), cnat(c["_ocb"]), c_mgr(m, flt))
 
 
-def c_wth(w):
-    return "(Wth %s %s %s %s)" % (cnat(w["m"]["_oid"]), cbool(w["a"]), cbool(w["n"]), c_mgr(w["m"]))
+def c_wth(w, flt=False):
+    return "(Wth %s %s %s %s)" % (cnat(w["m"]["_oid"]), cbool(w["a"]), cbool(w["n"]), c_mgr(w["m"], flt))
 
 
-def c_frm(f):
+def c_frm(f, flt=False):
     t = f["tail"]
     if t[0] == "stop":
         tail = "TStop"
     elif t[0] == "deleg":
-        tail = "(TDeleg %s)" % c_frm(t[1])
+        tail = "(TDeleg %s)" % c_frm(t[1], flt)
     elif t[1]["m"]["t"] == "stack" and t[1]["m"].get("cur") is not None:
-        tail = "(TExitS %s %s)" % (c_wth(t[1]), c_mgr(t[1]["m"]["cur"].get("m")))
+        tail = "(TExitS %s %s)" % (c_wth(t[1], flt), c_mgr(t[1]["m"]["cur"].get("m"), flt))
     else:
-        tail = "(TExit %s)" % c_wth(t[1])
-    return "(Frm %s %s %s)" % (cnat(f["_id"]), clist([c_wth(w) for w in f["ws"]]), tail)
+        tail = "(TExit %s)" % c_wth(t[1], flt)
+    return "(Frm %s %s %s)" % (cnat(f["_id"]), clist([c_wth(w, flt) for w in f["ws"]]), tail)
 
 
 def c_cout(c):
@@ -425,7 +456,8 @@ def c_fout(f):
 def coq_case(desc, obs):
     outs = lambda o: clist([c_fout(f) for f in o])
     if desc.get("_kind") == "hist":
-        return "(Build_hist_case %s %s)" % (c_frm(obs["tree"]), clist([outs(o) for o in obs["outs"]]))
+        return "(Build_hist_case %s %s %s %s)" % (c_frm(obs["tree"]), clist([outs(o) for o in obs["outs"]]),
+                                                  c_frm(obs["tree"], True), outs(obs["faulted"]))
     if desc.get("_kind") == "conc":
         return "(Build_conc_case %s %s %s %s)" % (c_frm(obs["tree"]), c_frm(obs["tree_after"]), outs(obs["outs"][0]), outs(obs["outs"][1]))
     return "(Build_es_case %s %s)" % (c_frm(obs["tree"]), clist([c_fout(f) for f in obs["out"]]))
@@ -444,29 +476,46 @@ def _exp_meth(k, x, strict):
     return meth, aw
 
 
-def exp_series(f, strict):
-    cs = [exp_ctx(w["m"], w["m"]["_oid"], w["a"], False, "RName" if w["n"] else "RUnderscore", [], None, strict) for w in f["ws"]]
+def exp_fails(m):
+    """fault injection (every plain manager's repr raises): does the unfolding of this manager fail?
+    An exit stack needs the repr of each registered manager / bound-method receiver; generator-based
+    managers contain faults of their own frames, functions and callbacks need no repr."""
+    if m is None or m["t"] != "stack":
+        return False
+    return any((c["k"] in B.MGR_KINDS or c["k"] in B.METH_KINDS) and (c["m"]["t"] == "plain" or exp_fails(c["m"]))
+               for c in m["cbs"])
+
+
+def exp_top(w, exiting, strict, flt):
+    if flt and exp_fails(w["m"]):
+        # contained: this with-block stays bare, its neighbours are unaffected
+        return {"oid": w["m"]["_oid"], "a": w["a"], "e": exiting, "inner": None, "kids": [], "info": None}
+    return exp_ctx(w["m"], w["m"]["_oid"], w["a"], exiting, "RName" if w["n"] else "RUnderscore", [], None, strict, flt)
+
+
+def exp_series(f, strict, flt=False):
+    cs = [exp_top(w, False, strict, flt) for w in f["ws"]]
     rest = []
     t = f["tail"]
     if t[0] == "exit":
         w = t[1]
-        cs.append(exp_ctx(w["m"], w["m"]["_oid"], w["a"], True, "RName" if w["n"] else "RUnderscore", [], None, strict))
+        cs.append(exp_top(w, True, strict, flt))
         if w["m"]["t"] == "gen":
-            rest = exp_series(w["m"]["body"], strict)
+            rest = exp_series(w["m"]["body"], strict, flt)
         elif w["m"]["t"] == "stack" and w["m"].get("cur") is not None:
             # a stack in the middle of exiting: the popped callback's manager is what is exiting now
             cm = w["m"]["cur"].get("m")
             if cm is not None and cm["t"] == "gen":
-                rest = exp_series(cm["body"], strict)
+                rest = exp_series(cm["body"], strict, flt)
     elif t[0] == "deleg":
-        rest = exp_series(t[1], strict)
+        rest = exp_series(t[1], strict, flt)
     return [{"code": f["_id"], "cs": cs}] + rest
 
 
-def exp_ctx(m, oid, a, exiting, root, path, info, strict):
+def exp_ctx(m, oid, a, exiting, root, path, info, strict, flt=False):
     d = {"oid": oid, "a": a, "e": exiting, "inner": None, "kids": [], "info": info}
     if m is not None and m["t"] == "gen" and not exiting:
-        d["inner"] = exp_series(m["body"], strict)
+        d["inner"] = exp_series(m["body"], strict, flt)
     if m is not None and m["t"] == "stack":
         for idx, c in enumerate(m["cbs"]):
             k = c["k"]
@@ -484,7 +533,7 @@ def exp_ctx(m, oid, a, exiting, root, path, info, strict):
                 arg = "AFuncname"
             ci = {"sel": "SelSelf" if has_recv else "SelCallback", "root": root, "path": path, "idx": idx, "aw": aw,
                   "meth": meth, "arg": arg}
-            d["kids"].append(exp_ctx(tgt, c["m"]["_oid"] if has_recv else c["_ocb"], is_a, False, root, path + [idx], ci, strict))
+            d["kids"].append(exp_ctx(tgt, c["m"]["_oid"] if has_recv else c["_ocb"], is_a, False, root, path + [idx], ci, strict, flt))
     return d
 
 
@@ -529,6 +578,10 @@ def direct_oracle(desc, obs):
             if r:
                 return ("extraction %d of the history (0 = before, 1.. = after an extraction that failed part-way) differs from "
                         "the property's tree at %s: expected %r, observed %r" % ((i,) + r[:3]))
+        r = diff(exp_series(obs["tree"], False, True), obs["faulted"])
+        if r:
+            return ("the extraction during which some managers' repr failed: a with-block NOT hit by the fault is not unfolded as "
+                    "the property says (or one that was hit is not left bare) at %s: expected %r, observed %r" % r[:3])
         return None
     if desc.get("plan") == "conc":
         e0, e1 = exp_series(obs["tree"], False), exp_series(obs["tree_after"], False)
